@@ -88,6 +88,18 @@ Theorem C01_max_greatest_binary64 : forall (p mi ci : N) (xs : list PrimFloat.fl
   forall k, (k < length xs)%nat -> greatest_in FOps (lastn (N.to_nat p) (firstn (S k) xs)) (nth k outs (ninf FOps)).
 Proof. intros p mi ci xs. exact (max_greatest FOps okF p mi ci xs float_order_max). Qed.
 
+(* ---- refuted at the edge of the binary64 range (known finding K8): finite inputs whose running sum overflows ---- *)
+From Coq Require Import Floats List.
+From TA Require Import Generic FloatInst Run.
+(* SMA(2) fed 1.7e308 twice returns +inf (the mean, 1.7e308, is representable) and never recovers *)
+Theorem C01_K8_sma_overflow_inf :
+  last_out [oN 0 KSma (Pm 2 0 0 0); oX 0 1.7e308; oX 0 1.7e308] = [infinity] /\
+  last_out [oN 0 KSma (Pm 2 0 0 0); oX 0 1.7e308; oX 0 1.7e308; oX 0 1; oX 0 1] = [infinity].
+Proof. split; vm_compute; reflexivity. Qed.
+Theorem C01_K8_wma_overflow_nan :
+  map PrimFloat.is_nan (last_out [oN 0 KWma (Pm 2 0 0 0); oX 0 1.7e308; oX 0 1.7e308; oX 0 1.7e308]) = [true].
+Proof. vm_compute. reflexivity. Qed.
+
 From Coq Require Import List Floats.
 From TA Require Import Generic FloatInst XQ Run2 Par.Hom Par.Var Par.Oracle.
 (* the T2 oracle (exact rational run, evaluated by the checks) is the image of the exact real run these
